@@ -250,7 +250,8 @@ def check_firewall(ctx, chk):
     SRC, DST = f"each({N})", f"each({N})'"
     stores = [ev for ev in s.events if ev.kind == "store" and ev.data["target"] == "sub"
               and cn.show(ev.data["idx"]) == f"({SRC}, {DST})"]
-    cross = [ev for ev in stores if "set(G.services)" != cn.show(ev.data["value"])]
+    from .c15 import is_all_services
+    cross = [ev for ev in stores if not is_all_services(cn.show(ev.data["value"]))]
     ok = len(cross) == 2
     detail = f"{len(cross)} cross-zone store(s)"
     if ok:
